@@ -323,4 +323,106 @@ theorem snapScale_unit (s tol : Rat) (htol : tol ≤ 1 / 2) (h : rabs (rabs s - 
     have := maybeInt_of_near s tol 1 htol (by rw [rabs_lt_iff]; push_cast; constructor <;> linarith [habs.1, habs.2])
     rw [this]; push_cast; ring
 
+
+/-! ### composition helpers (C10 ∘ C03) -/
+
+theorem rabs_nonneg (x : Rat) : 0 ≤ rabs x := by unfold rabs; split_ifs <;> linarith
+theorem le_rabs (x : Rat) : x ≤ rabs x := by unfold rabs; split_ifs <;> linarith
+theorem neg_rabs_le (x : Rat) : -rabs x ≤ x := by unfold rabs; split_ifs <;> linarith
+
+/-- entries of the transform into the `rs`-fold overview -/
+theorem overviewTr_entries (A : Aff) (rs : Int) :
+    (overviewTr A rs).a = A.a / rs ∧ (overviewTr A rs).b = A.b / rs ∧ (overviewTr A rs).c = A.c / rs ∧
+    (overviewTr A rs).d = A.d / rs ∧ (overviewTr A rs).e = A.e / rs ∧ (overviewTr A rs).f = A.f / rs := by
+  refine ⟨?_, ?_, ?_, ?_, ?_, ?_⟩ <;> simp only [overviewTr, Aff.scale, Aff.mul_def, Aff.mul] <;> ring
+
+theorem rabs_div_le (v : Rat) (rs : Int) (h : 1 ≤ rs) : rabs (v / rs) ≤ rabs v := by
+  have hrq : (1 : Rat) ≤ rs := by exact_mod_cast h
+  have hpos : (0 : Rat) < rs := by linarith
+  rw [rabs_le_iff]
+  have hv0 := rabs_nonneg v
+  have a1 := le_rabs v
+  have a2 := neg_rabs_le v
+  constructor
+  · rw [le_div_iff₀ hpos]; nlinarith
+  · rw [div_le_iff₀ hpos]; nlinarith
+
+/-- Under the conditions `_can_paste` checks (and `stol ≤ ½`) the snapped overview transform is a unit
+scale + whole-pixel shift with the signs of `A`, and its offsets are within `ttol` of those of the overview transform. -/
+theorem snapAffine_overview_unit (A : Aff) (n stol ttol : Rat) (rs : Int) (hc : PasteCond A n stol ttol rs)
+    (hstol : stol ≤ 1 / 2) :
+    ∃ tx ty : Int, IsUnitST (snapAffine (overviewTr A rs) ttol stol) tx ty ∧
+      ((snapAffine (overviewTr A rs) ttol stol).a = if (overviewTr A rs).a < 0 then -1 else 1) ∧
+      ((snapAffine (overviewTr A rs) ttol stol).e = if (overviewTr A rs).e < 0 then -1 else 1) ∧
+      rabs ((overviewTr A rs).c - tx) < ttol ∧ rabs ((overviewTr A rs).f - ty) < ttol ∧
+      rabs (overviewTr A rs).b < tol1em10 ∧ rabs (overviewTr A rs).d < tol1em10 := by
+  obtain ⟨ea, eb, ec, ed, ee, ef⟩ := overviewTr_entries A rs
+  have hst := hc.st
+  simp only [isAffineST, Bool.and_eq_true, decide_eq_true_eq] at hst
+  have hrs := read_shrink_pos_int _ _ _ hc.hrs
+  have hb : rabs (overviewTr A rs).b < tol1em10 := by rw [eb]; exact lt_of_le_of_lt (rabs_div_le _ _ hrs) hst.1
+  have hd : rabs (overviewTr A rs).d < tol1em10 := by rw [ed]; exact lt_of_le_of_lt (rabs_div_le _ _ hrs) hst.2
+  have htol : tol1em10 < tol1em8 := by decide +kernel
+  obtain ⟨kx, hkx, mkx⟩ := isAlmostInt_spec _ _ hc.tx
+  obtain ⟨ky, hky, mky⟩ := isAlmostInt_spec _ _ hc.ty
+  have hsnap : snapAffine (overviewTr A rs) ttol stol =
+      ⟨if (overviewTr A rs).a < 0 then -1 else 1, 0, (kx : Rat), 0, if (overviewTr A rs).e < 0 then -1 else 1, (ky : Rat)⟩ := by
+    unfold snapAffine
+    rw [if_neg (by
+      rintro (hh | hh)
+      · exact absurd (lt_trans hb htol) (not_lt.mpr (le_of_lt hh))
+      · exact absurd (lt_trans hd htol) (not_lt.mpr (le_of_lt hh)))]
+    rw [snapScale_unit _ stol hstol hc.sx, snapScale_unit _ stol hstol hc.sy, mkx, mky]
+  refine ⟨kx, ky, ?_, by rw [hsnap], by rw [hsnap], hkx, hky, hb, hd⟩
+  rw [hsnap]
+  refine ⟨rfl, rfl, ?_, ?_, rfl, rfl⟩
+  · simp only; split_ifs <;> simp
+  · simp only; split_ifs <;> simp
+
+/-- half-pixel budget ⇒ the true image of a pixel centre is within half a pixel of the snapped one (one axis):
+`|(a − σ)·u + b·v + (c − t)| < ½` for `0 < u < nx`, `0 < v < ny`, when `||a|−1|·nx + |b|·ny + ttol ≤ ½`. -/
+theorem close_of_budget (a b c : Rat) (t : Int) (ttol : Rat) (nx ny : Int) (u v : Rat)
+    (hu : 0 < u ∧ u < nx) (hv : 0 < v ∧ v < ny) (hc : rabs (c - t) < ttol)
+    (hbud : rabs (rabs a - 1) * nx + rabs b * ny + ttol ≤ 1 / 2) :
+    rabs (a * u + b * v + c - ((if a < 0 then -1 else 1) * u + (t : Rat))) < 1 / 2 := by
+  have hc' := (rabs_lt_iff _ _).mp hc
+  have hb1 := le_rabs b
+  have hb2 := neg_rabs_le b
+  have hb0 := rabs_nonneg b
+  have hd0 := rabs_nonneg (rabs a - 1)
+  have hbv : -(rabs b * ny) ≤ b * v ∧ b * v ≤ rabs b * ny := by
+    have : (v : Rat) ≤ ny := le_of_lt hv.2
+    constructor <;> nlinarith
+  -- (a − σ)·u is bounded by δ·nx
+  have hau : -(rabs (rabs a - 1) * nx) ≤ (a - (if a < 0 then -1 else 1)) * u ∧
+      (a - (if a < 0 then -1 else 1)) * u ≤ rabs (rabs a - 1) * nx := by
+    have hun : (u : Rat) ≤ nx := le_of_lt hu.2
+    have k1 := le_rabs (rabs a - 1)
+    have k2 := neg_rabs_le (rabs a - 1)
+    generalize rabs (rabs a - 1) = D at k1 k2 hd0 ⊢
+    have hu0 : 0 ≤ u := le_of_lt hu.1
+    have hDu : D * u ≤ D * nx := mul_le_mul_of_nonneg_left hun hd0
+    by_cases ha : a < 0
+    · have e : rabs a = -a := by unfold rabs; rw [if_pos ha]
+      rw [e] at k1 k2
+      rw [if_pos ha]
+      have h1 : (a - -1) * u ≤ D * u := mul_le_mul_of_nonneg_right (by linarith) hu0
+      have h2 : -(D * u) ≤ (a - -1) * u := by
+        have := mul_le_mul_of_nonneg_right (show -D ≤ a - -1 by linarith) hu0
+        linarith
+      constructor <;> linarith
+    · have e : rabs a = a := by unfold rabs; rw [if_neg ha]
+      rw [e] at k1 k2
+      rw [if_neg ha]
+      have h1 : (a - 1) * u ≤ D * u := mul_le_mul_of_nonneg_right (by linarith) hu0
+      have h2 : -(D * u) ≤ (a - 1) * u := by
+        have := mul_le_mul_of_nonneg_right (show -D ≤ a - 1 by linarith) hu0
+        linarith
+      constructor <;> linarith
+  rw [rabs_lt_iff]
+  have key : a * u + b * v + c - ((if a < 0 then -1 else 1) * u + (t : Rat)) =
+      (a - (if a < 0 then -1 else 1)) * u + b * v + (c - t) := by ring
+  rw [key]
+  constructor <;> linarith [hau.1, hau.2, hbv.1, hbv.2, hc'.1, hc'.2]
+
 end OdcGeo.C10
